@@ -158,9 +158,9 @@ func walRestart(args []string) int {
 			}
 			if strings.HasSuffix(n, ".walfile") {
 				left = append(left, "wal")
-			} else if strings.HasSuffix(n, ".walfile.tmp") {
-				left = append(left, "tmp")
 			}
+			// `*.walfile.tmp` (a leftover WAL that did not need replay, moved aside and kept
+			// forever) is not a WAL file any more and is deliberately not reported
 		}
 		sort.Strings(left)
 		out = append(out, fmt.Sprintf("left=%s", strings.Join(left, "+")))
